@@ -11,6 +11,8 @@ package storage
 // EVERY single failing S3 call of the copy (puts additionally in the "error returned but the
 // object was written" mode), each of those again with every (thorough: every <=2) failing
 // clean-up delete(s). The oracle is a reference model written from the property statement.
+// The order in which overlapping S3 requests take effect is the second part of the check
+// (zz_verif_c08_conc_test.go), which shares the fake, the model and the oracle below.
 
 import (
 	"bytes"
@@ -29,6 +31,7 @@ import (
 	"time"
 
 	"github.com/KafScale/platform/internal/verif/enum"
+	"github.com/KafScale/platform/internal/verif/sched"
 	"github.com/KafScale/platform/internal/verif/vh"
 )
 
@@ -84,17 +87,34 @@ var errC08Injected = errors.New("verif: injected s3 failure")
 
 // c08S3 is a single-keyspace bucket (like a real bucket: segments and indexes share it, listing
 // is lexicographic and returns every object under the prefix). Copy-phase calls are numbered in
-// issue order; clean-up deletes are numbered separately.
+// issue order; clean-up deletes are numbered separately. Like a real S3 client it is safe for
+// concurrent use (one mutex around every operation); the sequential enumeration never contends.
+//
+// Two ways of injecting failures: by position (fault, sequential enumeration) or, with points set
+// (schedule harness, TestVerifC08Conc), every call first parks at a scheduling point of the
+// controlled scheduler - the call takes effect when the scheduler lets it continue - and whether it
+// fails is an explorer decision taken at that moment.
 type c08S3 struct {
+	mu        sync.Mutex
 	obj       map[string][]byte
 	fault     c08Fault
+	points    bool
 	calls     int
 	trace     []string
 	dels      int
 	failedDel map[string]bool
+	delFail   []int
 	failedOp  string
 	failedKey string
+	failedK   int
+	applied   bool
 	injected  bool
+	ninjected int
+	// bookkeeping for the mechanism classifier of leftovers (schedule harness)
+	returned bool              // the restore call has returned
+	deleted  map[string]bool   // a clean-up delete of the key has taken effect
+	late     map[string]string // key -> how its last write is ordered against the clean-up
+	ops      []string          // every call in effect order (replay output)
 }
 
 func c08NewS3(src map[string][]byte, f c08Fault) *c08S3 {
@@ -102,24 +122,58 @@ func c08NewS3(src map[string][]byte, f c08Fault) *c08S3 {
 	for k, v := range src {
 		m[k] = v
 	}
-	return &c08S3{obj: m, fault: f, failedDel: map[string]bool{}, trace: make([]string, 0, 32)}
+	return &c08S3{obj: m, fault: f, failedDel: map[string]bool{}, trace: make([]string, 0, 32), failedK: -1}
 }
 
-func (s *c08S3) hit(op, key string) bool {
+// point is the scheduling point + failure decision of one call in the schedule harness:
+// -1 = not in that mode, 0 = succeed, 1 = fail without effect, 2 = (puts) written but error returned.
+func (s *c08S3) point(op string, alternatives int) int {
+	if !s.points {
+		return -1
+	}
+	sched.Env("s3." + op)
+	return sched.Choose(alternatives, "fail "+op)
+}
+
+// hit numbers a copy-phase call and says whether it fails (and, for a put, is written anyway).
+func (s *c08S3) hit(op, key string, mode int) (fail, applied bool) {
 	i := s.calls
 	s.calls++
 	s.trace = append(s.trace, op)
-	if i == s.fault.Call {
-		s.failedOp, s.failedKey, s.injected = op, key, true
-		return true
+	if mode < 0 {
+		fail, applied = i == s.fault.Call, s.fault.Applied
+	} else {
+		fail, applied = mode != 0, mode == 2
 	}
-	return false
+	if fail {
+		s.ninjected++
+		if !s.injected {
+			s.failedOp, s.failedKey, s.failedK, s.applied, s.injected = op, key, i, applied, true
+		}
+	}
+	if s.points {
+		s.ops = append(s.ops, fmt.Sprintf("%s %s fail=%v applied=%v", op, key, fail, fail && applied))
+	}
+	return fail, applied
 }
 
 func (s *c08S3) put(op, key string, body []byte) error {
-	fail := s.hit(op, key)
-	if !fail || s.fault.Applied {
+	mode := s.point(op, 3)
+	s.mu.Lock()
+	defer s.mu.Unlock()
+	fail, applied := s.hit(op, key, mode)
+	if !fail || applied {
 		s.obj[key] = append([]byte(nil), body...)
+		if s.points {
+			switch {
+			case s.deleted[key]:
+				s.late[key] = "put-completed-after-its-clean-up-delete"
+			case s.returned:
+				s.late[key] = "put-completed-after-restore-returned"
+			default:
+				delete(s.late, key)
+			}
+		}
 	}
 	if fail {
 		return fmt.Errorf("%s %s: %w", op, key, errC08Injected)
@@ -135,28 +189,50 @@ func (s *c08S3) UploadIndex(ctx context.Context, key string, body []byte) error 
 	return s.put("PutIndex", key, body)
 }
 
-func (s *c08S3) del(key string) error {
+func (s *c08S3) del(op, key string) error {
+	mode := s.point(op, 2)
+	s.mu.Lock()
+	defer s.mu.Unlock()
 	j := s.dels
 	s.dels++
-	for _, x := range s.fault.DelFail {
-		if x == j {
-			s.failedDel[key] = true
-			return fmt.Errorf("delete %s: %w", key, errC08Injected)
+	fail := mode > 0
+	if mode < 0 {
+		for _, x := range s.fault.DelFail {
+			if x == j {
+				fail = true
+			}
 		}
 	}
+	if s.points {
+		s.ops = append(s.ops, fmt.Sprintf("%s %s fail=%v", op, key, fail))
+	}
+	if fail {
+		s.failedDel[key] = true
+		s.delFail = append(s.delFail, j)
+		return fmt.Errorf("delete %s: %w", key, errC08Injected)
+	}
 	delete(s.obj, key)
+	if s.points {
+		s.deleted[key] = true
+		delete(s.late, key)
+	}
 	return nil
 }
 
-func (s *c08S3) DeleteSegment(ctx context.Context, key string) error { return s.del(key) }
-func (s *c08S3) DeleteIndex(ctx context.Context, key string) error   { return s.del(key) }
+func (s *c08S3) DeleteSegment(ctx context.Context, key string) error {
+	return s.del("DeleteSegment", key)
+}
+func (s *c08S3) DeleteIndex(ctx context.Context, key string) error { return s.del("DeleteIndex", key) }
 
 func (s *c08S3) DownloadSegment(ctx context.Context, key string, rng *ByteRange) ([]byte, error) {
 	op := "Get"
 	if rng != nil {
 		op = "GetRange"
 	}
-	if s.hit(op, key) {
+	mode := s.point(op, 2)
+	s.mu.Lock()
+	defer s.mu.Unlock()
+	if fail, _ := s.hit(op, key, mode); fail {
 		return nil, fmt.Errorf("%s %s: %w", op, key, errC08Injected)
 	}
 	data, ok := s.obj[key]
@@ -180,7 +256,10 @@ func (s *c08S3) DownloadSegment(ctx context.Context, key string, rng *ByteRange)
 }
 
 func (s *c08S3) DownloadIndex(ctx context.Context, key string) ([]byte, error) {
-	if s.hit("GetIndex", key) {
+	mode := s.point("GetIndex", 2)
+	s.mu.Lock()
+	defer s.mu.Unlock()
+	if fail, _ := s.hit("GetIndex", key, mode); fail {
 		return nil, fmt.Errorf("GetIndex %s: %w", key, errC08Injected)
 	}
 	data, ok := s.obj[key]
@@ -191,10 +270,13 @@ func (s *c08S3) DownloadIndex(ctx context.Context, key string) ([]byte, error) {
 }
 
 func (s *c08S3) ListSegments(ctx context.Context, prefix string) ([]S3Object, error) {
-	if s.hit("List", prefix) {
+	mode := s.point("List", 2)
+	s.mu.Lock()
+	defer s.mu.Unlock()
+	if fail, _ := s.hit("List", prefix, mode); fail {
 		return nil, fmt.Errorf("List %s: %w", prefix, errC08Injected)
 	}
-	keys := s.keysUnder(prefix)
+	keys := c08KeysUnder(s.obj, prefix)
 	out := make([]S3Object, 0, len(keys))
 	for _, k := range keys {
 		out = append(out, S3Object{Key: k, Size: int64(len(s.obj[k]))})
@@ -204,9 +286,24 @@ func (s *c08S3) ListSegments(ctx context.Context, prefix string) ([]S3Object, er
 
 func (s *c08S3) EnsureBucket(ctx context.Context) error { return nil }
 
-func (s *c08S3) keysUnder(prefix string) []string {
+// judge applies the oracle to what the execution left behind. The lock is held throughout, so a
+// request that a changed RecoverTopicToTimestamp left in flight cannot write while the oracle reads
+// (the view shares the fake's maps).
+func (s *c08S3) judge(src *c08Source, c *c08Case, out *TopicRecoveryResult, err error, panicked *c08Problem) (c08Result, c08Obs) {
+	s.mu.Lock()
+	defer s.mu.Unlock()
+	o := c08Obs{obj: s.obj, calls: s.calls, trace: s.trace, dels: s.dels, failedDel: s.failedDel, failedOp: s.failedOp,
+		injected: s.injected, applied: s.applied, k: s.failedK, delFail: s.delFail, ninjected: s.ninjected, late: s.late, ops: s.ops}
+	if !s.points {
+		// position mode: the signature names the requested fault also when it was not reached
+		o.applied, o.delFail = s.fault.Applied, s.fault.DelFail
+	}
+	return c08Judge(src, c, o, out, err, panicked), o
+}
+
+func c08KeysUnder(obj map[string][]byte, prefix string) []string {
 	var keys []string
-	for k := range s.obj {
+	for k := range obj {
 		if strings.HasPrefix(k, prefix) {
 			keys = append(keys, k)
 		}
@@ -570,43 +667,72 @@ type c08Result struct {
 	ok         bool // restore returned success
 }
 
+// c08Obs is what one execution left behind, as seen by the oracle.
+type c08Obs struct {
+	obj       map[string][]byte // final bucket content
+	calls     int               // copy-phase calls issued
+	trace     []string          // their op names in issue order
+	dels      int               // clean-up deletes issued
+	failedDel map[string]bool   // keys whose delete was made to fail
+	failedOp  string            // op of the (first) injected copy failure
+	injected  bool
+	applied   bool  // the failing put was written although it returned an error
+	k         int   // issue index of the (first) failing copy call, -1 none
+	delFail   []int // issue indices of the failing deletes
+	// schedule harness only: for objects under the target prefix, how the last write of the key is
+	// ordered against the clean-up ("" = ordinary)
+	late      map[string]string
+	ninjected int      // injected copy failures (the schedule harness may reach more than one when the copy is concurrent)
+	ops       []string // schedule harness: every call in effect order
+}
+
+func c08Restore(s3 S3Client, c *c08Case) (out *TopicRecoveryResult, err error, panicked *c08Problem) {
+	defer func() {
+		if r := recover(); r != nil {
+			panicked = &c08Problem{"panic", fmt.Sprint(r)}
+			err = fmt.Errorf("panic: %v", r)
+		}
+	}()
+	out, err = RecoverTopicToTimestamp(context.Background(), s3, TopicRecoveryConfig{
+		SourceNamespace: c08NS, SourceTopic: c08Src, TargetNamespace: c08NS, TargetTopic: c08Dst,
+		RestoreTo:  time.UnixMilli(c08T).Add(time.Duration(c.Cfg.FracUs) * time.Microsecond),
+		Partitions: c.Filter,
+	})
+	return
+}
+
 func c08Run(src *c08Source, c *c08Case, f c08Fault) (res c08Result) {
 	s3 := c08NewS3(src.obj, f)
-	var out *TopicRecoveryResult
-	var err error
-	func() {
-		defer func() {
-			if r := recover(); r != nil {
-				res.probs = append(res.probs, c08Problem{"panic", fmt.Sprint(r)})
-				err = fmt.Errorf("panic: %v", r)
-			}
-		}()
-		out, err = RecoverTopicToTimestamp(context.Background(), s3, TopicRecoveryConfig{
-			SourceNamespace: c08NS, SourceTopic: c08Src, TargetNamespace: c08NS, TargetTopic: c08Dst,
-			RestoreTo:  time.UnixMilli(c08T).Add(time.Duration(c.Cfg.FracUs) * time.Microsecond),
-			Partitions: c.Filter,
-		})
-	}()
-	res.calls, res.trace, res.dels = s3.calls, s3.trace, s3.dels
+	out, err, panicked := c08Restore(s3, c)
+	res, _ = s3.judge(src, c, out, err, panicked)
+	return res
+}
+
+// c08Judge is the oracle of the statement applied to the state one restore left behind.
+func c08Judge(src *c08Source, c *c08Case, o c08Obs, out *TopicRecoveryResult, err error, panicked *c08Problem) (res c08Result) {
+	if panicked != nil {
+		res.probs = append(res.probs, *panicked)
+	}
+	res.calls, res.trace, res.dels = o.calls, o.trace, o.dels
 	bad := func(key, format string, a ...any) {
 		res.probs = append(res.probs, c08Problem{key, fmt.Sprintf(format, a...)})
 	}
 	// the source must be left alone in every case
 	for k, v := range src.obj {
-		if g, ok := s3.obj[k]; !ok || !bytes.Equal(g, v) {
+		if g, ok := o.obj[k]; !ok || !bytes.Equal(g, v) {
 			bad("source-modified", "source object %q changed or disappeared", k)
 		}
 	}
 	tUs := c08T*1000 + int64(c.Cfg.FracUs)
 	if err == nil && out != nil {
 		res.ok = true
-		got, probs := c08DecodeTarget(s3.obj)
+		got, probs := c08DecodeTarget(o.obj)
 		res.probs = append(res.probs, probs...)
 		exp := c08Model(src, c)
 		var sb strings.Builder
 		sb.WriteString("ok")
-		if s3.injected {
-			fmt.Fprintf(&sb, "|swallowed:%s", s3.failedOp)
+		if o.injected {
+			fmt.Fprintf(&sb, "|swallowed:%s", o.failedOp)
 		}
 		cut := false
 		for p := range src.segs {
@@ -645,14 +771,14 @@ func c08Run(src *c08Source, c *c08Case, f c08Fault) (res c08Result) {
 			sb.WriteString("|lie=" + src.lie)
 		}
 		res.sig = sb.String()
-		res.nontrivial = cut || s3.injected || src.lie != ""
+		res.nontrivial = cut || o.injected || src.lie != ""
 		return res
 	}
 	// failed restore: nothing may remain under the target prefix unless its delete was made to fail
-	left := s3.keysUnder(c08NS + "/" + c08Dst + "/")
+	left := c08KeysUnder(o.obj, c08NS+"/"+c08Dst+"/")
 	nleft := 0
 	for _, k := range left {
-		if s3.failedDel[k] {
+		if o.failedDel[k] {
 			continue
 		}
 		nleft++
@@ -661,20 +787,21 @@ func c08Run(src *c08Source, c *c08Case, f c08Fault) (res c08Result) {
 			ext = "index"
 		}
 		why := "without-injected-failure"
-		if s3.injected {
-			why = "after-" + s3.failedOp + "-failed"
-			if f.Applied {
-				why = "after-" + s3.failedOp + "-error-applied"
+		if o.injected {
+			why = "after-" + o.failedOp + "-failed"
+			if o.applied {
+				why = "after-" + o.failedOp + "-error-applied"
 			}
 		}
-		bad("leftover-"+ext+"-"+why, "restore failed (%v) but %q remains under the target prefix and no delete of it was made to fail (deletes issued: %d, failed deletes: %v)", err, k, s3.dels, c08SortedKeys(s3.failedDel))
+		how := ""
+		if m := o.late[k]; m != "" {
+			why += ":" + m
+			how = " (" + m + ")"
+		}
+		bad("leftover-"+ext+"-"+why, "restore failed (%v) but %q remains under the target prefix%s and no delete of it was made to fail (deletes issued: %d, failed deletes: %v)", err, k, how, o.dels, c08SortedKeys(o.failedDel))
 	}
-	k := -1
-	if s3.injected {
-		k = f.Call
-	}
-	res.sig = fmt.Sprintf("fail|op=%s|k=%d|applied=%v|dels=%d|delfail=%v|kept=%d|left=%d", s3.failedOp, k, f.Applied, s3.dels, f.DelFail, len(left)-nleft, nleft)
-	res.nontrivial = s3.injected
+	res.sig = fmt.Sprintf("fail|op=%s|k=%d|applied=%v|dels=%d|delfail=%v|kept=%d|left=%d", o.failedOp, o.k, o.applied, o.dels, o.delFail, len(left)-nleft, nleft)
+	res.nontrivial = o.injected
 	return res
 }
 
@@ -945,7 +1072,7 @@ func TestVerifC08(t *testing.T) {
 	defer rep.Finish()
 	rep.Rule = "case = source history (layout of records into <=3 segments x <=2 batches x <=3 records per partition; every record timestamp and every segment createdAt in {T-1,T,T+1} ms, later records may be earlier than the batch base (negative deltas); at most one batch whose maxTimestamp header lies; 1-2 partitions; filter in {none,{0},{1}}; T with/without a sub-millisecond fraction; index interval; start offset) x fault (none | k-th S3 call of the copy fails, puts also in 'written but error returned' mode) x failing clean-up deletes. Non-trivial = a failure was injected, or the model cuts the source (restored prefix shorter than the source), or a header lies."
 	rep.Assumptions = []string{
-		"S3 is an in-package single-keyspace fake (lexicographic listing of all objects, inclusive clamped ranges like MemoryS3Client); RecoverTopicToTimestamp issues its calls sequentially",
+		"S3 is an in-package single-keyspace fake (lexicographic listing of all objects, inclusive clamped ranges like MemoryS3Client; safe for concurrent use); in this part every S3 call completes before the next is issued and a request still in flight when the restore returns is not waited for (orderings of overlapping requests: schedule part TestVerifC08Conc)",
 		"the first record of a batch carries delta 0 (base timestamp = first record's timestamp), as Kafka producers build batches",
 		"only uncompressed batches (the code rejects compressed batches that need a cut)",
 		"metadata side of the CLI (etcd topic creation / offsets) is not exercised; the check observes target S3 objects",
@@ -956,6 +1083,9 @@ func TestVerifC08(t *testing.T) {
 	if ok, err := vh.LoadReplay(&rc); ok {
 		if err != nil {
 			t.Fatalf("HARNESS-ERROR replay: %v", err)
+		}
+		if len(rc.Parts) == 0 {
+			return // a replay of the schedule part (TestVerifC08Conc), not of this enumeration
 		}
 		src, err := c08BuildSource(&rc)
 		if err != nil {
